@@ -68,7 +68,11 @@ func (x *runner) stillConnected(c *Conn) bool {
 		return false
 	}
 	c.Ping(5 * time.Second)
-	x.eng.Flush(20 * time.Second)
+	if !x.eng.Flush(20 * time.Second) {
+		// the engine's message loops did not answer: nothing can be said about what they have or have not processed
+		x.count("still_connected_probes_without_a_flush", 1)
+		return false
+	}
 	return c.Ping(5*time.Second) && !c.Dead()
 }
 
